@@ -71,6 +71,8 @@ def const(v):
 
 
 def lift(v):
+    if type(v).__name__ == 'ArrBox':          # the interpreter's mutable array cell (array mode): its current content
+        v = v.v
     return v if isinstance(v, Node) else const(v)
 
 
